@@ -26,7 +26,12 @@ RULE = ("case = one compiled configuration (mesh kind x element order 1..4 x qua
         "enumerated deterministically, mesh/material constants/displacements/histories/BC subsets/block partitions are "
         "seeded random. Inside a case: `draws` displacement fields (scaled to a target strain, harness-verified min det F "
         "> 0.3) x `nbc` essential-BC subsets (always the empty set and all-but-one dof, plus random subsets of "
-        "(node, component)). Non-trivial = at least one comparison with a BC set that is neither empty nor full at a "
+        "(node, component)); every subset is declared twice -- plainly (one node set per component) and a second way (overlapping "
+        "node sets on one component / the same EssentialBC listed 2-3 times / node sets with repeated members / subset + superset, "
+        "entries shuffled) -- and both declarations must give the identical matrix, equal to the Hessian. Multi-block classes: "
+        "multi_hyper/multi_j2/multi_visco = same model in 2-4 blocks (transparency against the single-block factory); "
+        "multi_mixed = 2-4 blocks carrying DIFFERENT models and/or the same model with constants decades apart, random dictionary "
+        "order (K vs Hessian of the multi-block energy, symmetry). Non-trivial = at least one comparison with a BC set that is neither empty nor full at a "
         "non-zero displacement (path-dependent models: at an evolved internal state with >= 1 yielded / relaxed "
         "quadrature point); distinct = canonical hash of the configuration.")
 ASSUMPTIONS = [
@@ -244,6 +249,25 @@ class _LibraryRaised(Exception):
     pass
 
 
+N1_KEY = "C02-N1_multi_block_passes_padded_state_row_to_block_model"
+STATE_WIDTH = {"j2_large": 10, "j2_small": 10, "visco1": 9, "visco3": 27}
+
+
+def _n1_mechanism(case, stage, exc):
+    """Structural classifier of open finding C02-N1: multi-block factory with different materials whose internal-state sizes
+    differ, a viscoelastic block narrower than the widest block (its model reshapes the WHOLE state row it is handed), and the
+    library raising that reshape TypeError inside one of the multi-block evaluation functions.  Nothing else is absorbed."""
+    mats = case.get("materials")
+    if not mats or case.get("factory") != "multi":
+        return None
+    widths = [STATE_WIDTH.get(m["name"], 0) for m in mats]
+    narrow_visco = any(m["name"].startswith("visco") and w < max(widths) for m, w in zip(mats, widths))
+    if narrow_visco and isinstance(exc, TypeError) and "cannot reshape" in str(exc) and stage in (
+            "compute_updated_internal_variables", "energy", "hessian_of_energy", "element_stiffnesses"):
+        return N1_KEY
+    return None
+
+
 def _lib(res, stage, fn, *args, **kw):
     """Call library code whose success the property requires (an advertised option must not raise)."""
     from vlib.common import raised_in_library, library_frames
@@ -255,10 +279,14 @@ def _lib(res, stage, fn, *args, **kw):
         if not raised_in_library(e):
             raise
         c = res.case
+        mech = _n1_mechanism(c, stage, e)
+        if mech:
+            res.count("n1_padded_state_raises")
         res.violate("raises:" + stage,
                     {"exception": type(e).__name__, "message": str(e)[:300], "frames": library_frames(e),
-                     "factory": c.get("factory"), "mode": c.get("mode"), "pp": c.get("pp"), "material": c["material"]["name"]},
-                    None)
+                     "factory": c.get("factory"), "mode": c.get("mode"), "pp": c.get("pp"), "material": c["material"]["name"],
+                     "materials": [m["name"] for m in c.get("materials", [])]},
+                    mech)
         res.count("library_raised:" + stage)
         raise _LibraryRaised(stage)
 
